@@ -18,7 +18,7 @@ ObsLookupOk(r) == /\ r.obs.lookup_ran
 
 \* property clauses (a failed one is a violation of C11)
 Clauses == {"Total", "SpansInside", "NoDuplicateCategory", "NoDuplicateName", "NamesTrimmed", "RoundTrip",
-            "Lookup", "OutcomeAsSpecified", "CatsAsSpecified"}
+            "Lookup", "OutcomeAsSpecified", "CatsAsSpecified", "BindingsLookup"}
 Holds(c, r) ==
   CASE c = "Total"               -> r.obs.st # "panic"
     [] c = "SpansInside"         -> r.obs.st = "err" => SpanInside(r.obs.first, r.len) /\ SpanInside(r.obs.second, r.len)
@@ -27,6 +27,11 @@ Holds(c, r) ==
     [] c = "NamesTrimmed"        -> r.obs.st = "ok" => NamesTrimmed(r.obs.cats)
     [] c = "RoundTrip"           -> r.obs.st = "ok" => r.obs.rt = "same"
     [] c = "Lookup"              -> r.obs.st = "ok" => ObsLookupOk(r)
+    \* the bindings' category_for: every listed name answers with the category of its line (names the file does not list are free)
+    [] c = "BindingsLookup"      -> (r.obs.st = "ok" /\ "ffi" \in DOMAIN r.obs) =>
+                                      /\ r.obs.ffi_ran
+                                      /\ \A t \in Triples(r.obs.cats) : \E i \in DOMAIN r.obs.ffi :
+                                            r.obs.ffi[i].key = NameAt(r.obs.cats, t) /\ r.obs.ffi[i].category = r.obs.cats[t[1]].name
     [] c = "OutcomeAsSpecified"  -> (HasPred(r) /\ r.obs.st # "panic") => r.obs.st = r.pred.st
     [] c = "CatsAsSpecified"     -> (HasPred(r) /\ r.obs.st = "ok" /\ r.pred.st = "ok") => r.obs.cats = r.pred.cats
 \* implementation-shaped detail no clause of C11 states: disagreement is spec drift, reported only
